@@ -52,6 +52,10 @@ class Prop:
         """The part of the model's output line that mirrors the implementation."""
         return model
 
+    def impl_part(self, impl):
+        """The implementation's output line reduced to what the model computes."""
+        return impl
+
 
 def _parse_c06(case):
     w = case.split()
@@ -835,4 +839,201 @@ class C15(Prop):
         return "table " + case[0]
 
 
-PROPS = {p.id: p for p in [C06(), C19(), C11(), C16(), C13(), C10(), C15()]}
+
+# ---------------------------------------------------------------------------
+# C09: printing and parsing are inverse
+# ---------------------------------------------------------------------------
+_C09_ARITY = {"U": (1, 1), "B": (1, 2), "T": (0, 3), "S": (0, 2), "K": (1, 1)}
+_C09_FLOAT = {"FloatUntyped": 64, "Float64": 64, "Float32": 32, "Float16": 32}
+
+
+def _c09_tree(w, i):
+    """Parse a prefix-word tree into nested tuples; literal leaves become ('l', kind, bits)."""
+    k = w[i]
+    if k == "l":
+        # the spelling word is present in case lines and in the harness output
+        return ("l", w[i + 1], int(w[i + 2], 16)), i + 4
+    if k == "v":
+        return ("v", w[i + 1]), i + 2
+    if k == "M":
+        a, j = _c09_tree(w, i + 1)
+        return ("M", a, w[j]), j + 1
+    if k == "C":
+        n = int(w[i + 1])
+        f, j = _c09_tree(w, i + 2)
+        args = []
+        for _ in range(n):
+            a, j = _c09_tree(w, j)
+            args.append(a)
+        return ("C", f, tuple(args)), j
+    words, kids = _C09_ARITY[k]
+    head = tuple(w[i + 1:i + 1 + words])
+    j = i + 1 + words
+    out = []
+    for _ in range(kids):
+        a, j = _c09_tree(w, j)
+        out.append(a)
+    return (k,) + head + tuple(out), j
+
+
+def _c09_canon(t):
+    """A literal printed with a minus sign reads back as Minus applied to the positive literal: same value and type."""
+    if t[0] == "l":
+        _, kind, bits = t
+        if kind in _C09_FLOAT:
+            sign = 1 << (_C09_FLOAT[kind] - 1)
+            if bits & sign:
+                return ("U", "Minus", ("l", kind, bits & ~sign))
+        if kind == "IntSigned64" and bits >> 63:
+            return ("U", "Minus", ("l", kind, (1 << 64) - bits))
+        return t
+    if t[0] == "v":
+        return t
+    if t[0] == "M":
+        return ("M", _c09_canon(t[1]), t[2])
+    if t[0] == "C":
+        return ("C", _c09_canon(t[1]), tuple(_c09_canon(a) for a in t[2]))
+    words = _C09_ARITY[t[0]][0]
+    return t[:1 + words] + tuple(_c09_canon(a) for a in t[1 + words:])
+
+
+def _c09_has(t, pred):
+    if pred(t):
+        return True
+    if t[0] in ("l", "v"):
+        return False
+    if t[0] == "C":
+        return _c09_has(t[1], pred) or any(_c09_has(a, pred) for a in t[2])
+    return any(_c09_has(x, pred) for x in t[1:] if isinstance(x, tuple))
+
+
+def _c09_strip(tree_words):
+    """`l Kind hex spelling` -> `l spelling` (the model's trees carry spellings only)."""
+    w = tree_words.split()
+    out, i = [], 0
+    while i < len(w):
+        if w[i] == "l" and i + 3 < len(w) and _looks_hex(w[i + 2]):
+            out += ["l", w[i + 3]]
+            i += 4
+        else:
+            out.append(w[i])
+            i += 1
+    return " ".join(out)
+
+
+def _looks_hex(x):
+    return re.match(r"^[0-9a-f]+$", x) is not None
+
+
+class C09(Prop):
+    id = "C09"
+    gens = ["GenSyntax"]
+    header = 1
+    n_quick = 3000
+    n_thorough = 60000
+    design_ref = "DESIGN.md §4 C09"
+    assumptions = [
+        "expression core modelled: identifiers, literals (by the spelling the real printer gives them), prefix/postfix/binary operators, conditional, assignment, sequence, subscript, member, call, cast to a named type; sizeof, braced initialisers, explicit template arguments, scoped names, statements, declarators and types are exercised on the implementation only (F/X cases and the tree oracle)",
+        "the parser model is deterministic: it decides the cast / parenthesised-name ambiguity by the set of type names, which is what the type checker does with the parser's AmbiguousParseBranch; the real parser's search over symbol assumptions is tied to this by the correspondence only",
+        "tokens are compared at the level of spellings: the model does not lex the printed text (shifts are the two-token form in the real lexer); the adjacency rule of the printer is modelled and its effect on the real lexer is observed through the implementation side of every E case",
+        "literal spellings come from Rust's float Display through the real printer; whether they read back to the same value is decided on the implementation output (oracle), not in the model",
+        "`e1 < e2 > (e3)` is read by the parser as a call with explicit template arguments: the model answers UNMODELLED there and the theorem excludes token lists with `>` directly followed by `(` (known finding)",
+    ]
+
+    def kind(self, case):
+        w = case.split()
+        if w[0] != "E":
+            return w[0] + (" " + w[2] if len(w) > 2 else "")
+        n = len(w)
+        return "E words=%s" % (n if n <= 6 else ("7-12" if n <= 12 else ("13-30" if n <= 30 else "31+")))
+
+    def model_part(self, model):
+        return model
+
+    def _split(self, line):
+        if " ;; TREE " not in line or not line.startswith("TEXT "):
+            return None, line
+        a, b = line.split(" ;; TREE ", 1)
+        return a[5:], b
+
+    def comparable(self, case, impl, model):
+        if not case.startswith("E "):
+            return False
+        if model is None or model.startswith("UNMODELLED"):
+            return False
+        mt, mtree = self._split(model)
+        if mtree == "UNMODELLED":
+            return False
+        it, itree = self._split(impl)
+        if it is None:
+            return False
+        return True
+
+    def impl_part(self, impl):
+        it, itree = self._split(impl)
+        if it is None:
+            return impl
+        if itree.startswith("PARSE-ERROR"):
+            itree = "PARSE-ERROR"
+        elif itree != "UNREADABLE":
+            itree = _c09_strip(itree)
+        return "TEXT " + it + " ;; TREE " + itree
+
+    def oracle(self, case, impl, model=None):
+        w = case.split()
+        if impl.startswith("PANIC") or impl.startswith("TIMEOUT"):
+            return "printer or parser aborted: " + impl
+        if w[0] in ("F", "X", "P"):
+            if impl.startswith("DIFF"):
+                return "printed text reads back as a different tree: " + impl[5:]
+            return None
+        if w[0] != "E":
+            return None
+        text, tree = self._split(impl)
+        if text is None:
+            return "no output: " + impl
+        want = _c09_canon(_c09_tree(w, 1)[0])
+        if tree.startswith("PARSE-ERROR"):
+            return "printed text %r does not parse" % text
+        if tree == "UNREADABLE":
+            return "printed text %r reads back as a tree outside the expression forms it was built from" % text
+        tw = tree.split()
+        try:
+            got, n = _c09_tree(tw, 0)
+        except Exception:
+            return "unreadable tree output %r" % tree
+        if n != len(tw):
+            return "unreadable tree output %r" % tree
+        if got != want:
+            return "printed text %r reads back as a different tree: %s" % (text, tree)
+        return None
+
+    def known_class(self, case, impl, model):
+        w = case.split()
+        if w[0] != "E":
+            return None
+        text, tree = self._split(impl)
+        if text is None:
+            return None
+        t = _c09_tree(w, 1)[0]
+        if _c09_has(t, _c09_is_nan_leaf):
+            return "nan-literal"
+        if _c09_has(t, lambda x: x[0] == "l" and x[1] == "IntSigned64" and x[2] == 1 << 63):
+            return "int64-min-literal"
+        if re.search(r"<.*> \(", text) and (tree.startswith("PARSE-ERROR") or tree == "UNREADABLE" or "Ct " in tree):
+            return "template-argument-reading"
+        return None
+
+    def nontrivial(self, case, impl):
+        return case.startswith("E ") and len(case.split()) > 5 or impl.startswith("SAME")
+
+
+def _c09_is_nan_leaf(t):
+    if t[0] == "l" and t[1] in _C09_FLOAT:
+        n = _C09_FLOAT[t[1]]
+        e, m = (0x7ff, 52) if n == 64 else (0xff, 23)
+        return (t[2] >> m) & e == e and t[2] & ((1 << m) - 1) != 0
+    return False
+
+
+PROPS = {p.id: p for p in [C06(), C19(), C11(), C16(), C13(), C10(), C15(), C09()]}
